@@ -38,6 +38,13 @@ def Acc.append (a : Acc D) (new_leaf : D) : Option (Acc D × List D) := do
   let (ps, ap) ← calculateNewPeaksFromAppend H a.count a.peaks new_leaf
   pure ({ count := add64 a.count 1, peaks := ps }, ap)
 
+/-- `for leaf in leafs { mmra.append(leaf); }` -/
+def Acc.appendAll : List D → Acc D → Option (Acc D)
+  | [], a => some a
+  | x :: xs, a => match a.append H x with
+    | none => none
+    | some (a', _) => Acc.appendAll xs a'
+
 /-- `MmrAccumulator::new_from_leafs` -/
 def Acc.newFromLeafs : List D → Acc D → Option (Acc D)
   | [], a => some a
